@@ -46,14 +46,17 @@ type vfC31Case struct {
 	Frames   []vfC31Frame `json:"frames"`
 	MaxLate  uint16       `json:"max_late"`
 	DelayMs  int          `json:"delay_ms"` // WithMaxTimeDelay (0 = option not used); sample rate 90000
-	Depack   int          `json:"depack"`   // 0 fake self-describing depacketizer, 1 real VP8 (1-byte descriptor), 2 real VP8 (X + 7-bit picture id)
+	Depack   int          `json:"depack"`   // 0 fake self-describing depacketizer, 1 real VP8 (1-byte descriptor), 2 real VP8 (X + 7-bit picture id), 3 fake without tail detection
 	Delivery []int        `json:"delivery"` // stream indices in push order
 	Pops     []int        `json:"pops"`     // Pops[i mod len] = number of Pop calls after the i-th push
 }
 
-const vfC31KnownStartClass = "C31/incomplete/frame-starts-before-first-delivered-packet"
+const (
+	vfC31KnownStartClass = "C31/incomplete/frame-starts-before-first-delivered-packet"
+	vfC31KnownStaleClass = "C31/old-packet-accepted-after-everything-consumed"
+)
 
-type vfC31Fake struct{}
+type vfC31Fake struct{ noTail bool }
 
 func (vfC31Fake) Unmarshal(p []byte) ([]byte, error) {
 	if len(p) < 1 {
@@ -62,7 +65,9 @@ func (vfC31Fake) Unmarshal(p []byte) ([]byte, error) {
 	return p[1:], nil
 }
 func (vfC31Fake) IsPartitionHead(p []byte) bool         { return len(p) > 0 && p[0]&1 != 0 }
-func (vfC31Fake) IsPartitionTail(_ bool, p []byte) bool { return len(p) > 0 && p[0]&2 != 0 }
+func (f vfC31Fake) IsPartitionTail(_ bool, p []byte) bool {
+	return !f.noTail && len(p) > 0 && p[0]&2 != 0
+}
 
 type vfC31Pkt struct {
 	idx         int // position in the stream
@@ -111,7 +116,7 @@ func vfC31Stream(c vfC31Case) (pkts []vfC31Pkt, frames [][2]int, maxFrameLen int
 			p := vfC31Pkt{idx: idx, frame: fi, seq: c.Start + uint16(idx), ts: ts, head: j == 0, tail: j == n-1}
 			p.depacketize = vfC31Record(idx)
 			switch c.Depack {
-			case 0:
+			case 0, 3:
 				var fl byte
 				if p.head {
 					fl |= 1
@@ -146,11 +151,18 @@ func vfC31Run(v *vfT, c vfC31Case) {
 		v.Skip("empty or oversized stream")
 	}
 	var dep rtp.Depacketizer = vfC31Fake{}
-	if c.Depack != 0 {
+	switch c.Depack {
+	case 0:
+		v.Label("depack:fake")
+	case 3:
+		// a depacketizer that cannot tell partition tails ("should return false if the result could
+		// not be determined"): frames are delimited by the timestamp change only; the end of the
+		// last frame is then unknowable, so completeness is not asserted for this variant
+		dep = vfC31Fake{noTail: true}
+		v.Label("depack:fake-without-tail-detection")
+	default:
 		dep = &codecs.VP8Packet{}
 		v.Label("depack:vp8")
-	} else {
-		v.Label("depack:fake")
 	}
 	released := map[*rtp.Packet]int{}
 	pushedPtr := map[*rtp.Packet]int{}
@@ -208,7 +220,7 @@ func vfC31Run(v *vfT, c vfC31Case) {
 		firstDelivered = ((c.Delivery[0] % len(pkts)) + len(pkts)) % len(pkts)
 	}
 	firstIsStart := firstDelivered == 0
-	complete := permutation && withinMaxLate && c.DelayMs == 0
+	complete := permutation && withinMaxLate && c.DelayMs == 0 && c.Depack != 3
 	switch {
 	case losses > 0:
 		v.Label("loss")
@@ -244,6 +256,8 @@ func vfC31Run(v *vfT, c vfC31Case) {
 
 	// ---- drive the builder ----
 	pushed := make([]bool, len(pkts))
+	stale := make([]bool, len(pkts)) // pushed while older than the newest packet and with everything consumed
+	newest := -1
 	type run struct{ first, last int }
 	var emitted []run
 	lastEnd := -1
@@ -288,6 +302,10 @@ func vfC31Run(v *vfT, c vfC31Case) {
 			v.Violation("C31/not-partition-head", "%s: sample starts at packet %d (seq %d) which is not a partition head", when, first, pkts[first].seq)
 		}
 		if first <= lastEnd {
+			if stale[first] {
+				v.Violation(vfC31KnownStaleClass, "%s: sample for packets %d..%d emitted after a sample ending at packet %d (emitted so far: %v); packet %d was pushed when it was older than the newest pushed packet and the builder had consumed everything it held",
+					when, first, last, lastEnd, emitted, first)
+			}
 			for _, r := range emitted {
 				if first <= r.last && last >= r.first {
 					class := "C31/packet-in-two-samples"
@@ -315,13 +333,33 @@ func vfC31Run(v *vfT, c vfC31Case) {
 	for i, raw := range c.Delivery {
 		q := ((raw % len(pkts)) + len(pkts)) % len(pkts)
 		p := pkts[q]
+		if q < newest && sb.active.empty() && sb.lastSampleTimestamp != nil {
+			// In-package view: the builder has built at least one sample and holds no unconsumed
+			// packet; the packet being pushed is older than the newest one pushed so far.
+			if v.col.known[vfC31KnownStaleClass] {
+				// known finding: in that state the builder no longer knows what it consumed, takes the
+				// old packet (duplicate or late original) for new data and may emit it again / out of
+				// order.  The input class is excluded so that the rest of the space is still searched.
+				v.Label("excluded-known:old-packet-while-everything-consumed")
+				continue
+			}
+			stale[q] = true
+		}
+		if q > newest {
+			newest = q
+		}
 		rp := &rtp.Packet{
 			Header:  rtp.Header{Version: 2, Marker: p.tail, PayloadType: 96, SequenceNumber: p.seq, Timestamp: p.ts, SSRC: 0x31},
 			Payload: append([]byte{}, p.payload...),
 		}
 		pushedPtr[rp] = q
 		pushed[q] = true
+		t0 := time.Now()
 		sb.Push(rp)
+		if d := time.Since(t0); d > 300*time.Millisecond {
+			v.Label("observed:slow-push>300ms(not asserted)")
+			v.Logf("SLOW PUSH %v at #%d in case %s", d, i, v.caseJSON)
+		}
 		checkRelease(fmt.Sprintf("push #%d (packet %d)", i, q))
 		npop := 0
 		if len(c.Pops) > 0 {
@@ -356,7 +394,10 @@ func vfC31Run(v *vfT, c vfC31Case) {
 		}
 		if clean {
 			first, last := sb.buffer[sb.filled.head], sb.buffer[sb.filled.tail-1]
-			clean = dep.IsPartitionHead(first.Payload) && dep.IsPartitionTail(last.Marker, last.Payload)
+			// ... and the last frame must be a single packet: after the last frame of >=2 packets is
+			// built its not-yet-released tail packet is taken for a run without a head, which is
+			// the overshoot described above (this happens on perfectly clean streams too)
+			clean = dep.IsPartitionHead(first.Payload) && dep.IsPartitionTail(last.Marker, last.Payload) && dep.IsPartitionHead(last.Payload)
 			if clean && !sb.active.empty() && sb.buffer[sb.active.head] != nil {
 				clean = dep.IsPartitionHead(sb.buffer[sb.active.head].Payload)
 			}
@@ -371,6 +412,7 @@ func vfC31Run(v *vfT, c vfC31Case) {
 		sb.Flush()
 		if d := time.Since(t0); d > 300*time.Millisecond {
 			v.Label("observed:slow-flush>300ms(not asserted)")
+			v.Logf("SLOW FLUSH %v in case %s", d, v.caseJSON)
 		}
 		checkRelease("flush")
 	}
@@ -439,6 +481,11 @@ func vfC31Gen(v *vfT) vfC31Case {
 		total += f.N
 		c.Frames = append(c.Frames, f)
 	}
+	if rapid.Bool().Draw(v.R, "lastFrameSingle") {
+		// (with WithMaxTimeDelay, Flush is only exercised when the buffer ends with a single-packet frame)
+		total -= c.Frames[len(c.Frames)-1].N - 1
+		c.Frames[len(c.Frames)-1].N = 1
+	}
 	switch rapid.IntRange(0, 5).Draw(v.R, "startKind") {
 	case 0:
 		c.Start = 0
@@ -461,7 +508,7 @@ func vfC31Gen(v *vfT) vfC31Case {
 	default:
 		c.TS0 = rapid.Uint32().Draw(v.R, "ts0")
 	}
-	c.Depack = rapid.SampledFrom([]int{0, 0, 1, 2}).Draw(v.R, "depack")
+	c.Depack = rapid.SampledFrom([]int{0, 0, 1, 2, 3}).Draw(v.R, "depack")
 	c.MaxLate = uint16(rapid.SampledFrom([]int{5, 8, 10, 16, 32, 50, 100, 200}).Draw(v.R, "maxLate"))
 	if rapid.IntRange(0, 3).Draw(v.R, "delay?") == 0 {
 		c.DelayMs = rapid.SampledFrom([]int{1, 20, 34, 100, 1000}).Draw(v.R, "delayMs")
